@@ -16,7 +16,7 @@ import (
 func init() { Registry["C13"] = checkC13 }
 
 func checkC13(p *core.Prog, r *core.Report) {
-	r.Explanation = "Decides a stated domain of crash sites reachable from client input (connection goroutines have no recover(), checked as a fact): (R1) in every function of server/ and protocol/ that receives a text command's argument list ([]string parameter), every index args[c], args[v+c] and re-slice args[c:] is covered on its path by a length test of that list (len(args) lower bound from ==, <, <=, != tests in either polarity; v+c forms by a test of the same v against len(args)); a guard on a different expression of v does not count; (R2) every result code has an ERROR_MSG entry; (R3) the optional pointers LockCommand.Data, LockResultCommand.Data, LockManager.currentData and Lock.data are dereferenced (field access or method call) only on paths that tested them non-nil; (R4) constant indexes into client value frames (LockCommandData.Data, origin byte frames) are covered by a length test or by the frame reader's minimum length. Sites outside the domain (indices through struct fields, data-dependent offsets, loops with stride arithmetic) are counted as outside_domain and not claimed. (R5) in the text parser and stream readers an index of the form v-c (c>0) is covered by a test v >= c on its path. (R6) in the text parser every rbuf[e] has e < bufLen and every rbuf[a:b] has b <= bufLen on its path (linear entailment over the symbolic cursor and length; loop-carried locals are outside the domain); (R7) the per-connection reply buffer: every advance of the write index provably fits and the invariant index+64 <= len(buf) is re-established at every exit (inductive, assuming it at entry); (R8) the text protocol's recycled reply object has every argument-dependent field reassigned on every path before hand-over; (R9) constant and constant-bounded loop indexes into fixed-capacity tables (slices only ever made with a constant length) stay below the capacity (field cursors: only where a path fact bounds the cursor, and not in functions whose exploration exceeds the step budget). (R10) every make() whose size derives from an integer decoded from the wire (strconv parse, multi-byte word, a field holding one; parameters not followed) is bounded by the width of the decoded word (<= 32 bits) or by a test on its path - the out-of-range panic of make, not memory exhaustion. (R11) an index into a fixed-capacity table that is decoded from a client's message (protobuf request field, wire command field) is bounded by the width of its type or by a test on its path. (R12) in the value operations every slice of the stored frame whose bound contains a length supplied by the request stays within the frame by the path's comparisons (linear entailment). NOT decided: integer overflow, memory exhaustion by large but representable allocations, channel/close misuse, type assertions, deadlock, stack exhaustion."
+	r.Explanation = "Decides a stated domain of crash sites reachable from client input (connection goroutines have no recover(), checked as a fact): (R1) in every function of server/ and protocol/ that receives a text command's argument list ([]string parameter), every index args[c], args[v+c] and re-slice args[c:] is covered on its path by a length test of that list (len(args) lower bound from ==, <, <=, != tests in either polarity; v+c forms by a test of the same v against len(args)); a guard on a different expression of v does not count; (R2) every result code has an ERROR_MSG entry; (R3) the optional pointers LockCommand.Data, LockResultCommand.Data, LockManager.currentData and Lock.data are dereferenced (field access or method call) only on paths that tested them non-nil; (R4) constant indexes into client value frames (LockCommandData.Data, origin byte frames) are covered by a length test or by the frame reader's minimum length. Sites outside the domain (indices through struct fields, data-dependent offsets, loops with stride arithmetic) are counted as outside_domain and not claimed. (R5) in the text parser and stream readers an index of the form v-c (c>0) is covered by a test v >= c on its path. (R6) in the text parser every rbuf[e] has e < bufLen and every rbuf[a:b] has b <= bufLen on its path (linear entailment over the symbolic cursor and length; loop-carried locals are outside the domain); (R7) the per-connection reply buffer: every advance of the write index provably fits and the invariant index+64 <= len(buf) is re-established at every exit (inductive, assuming it at entry); (R8) the text protocol's recycled reply object has every argument-dependent field reassigned on every path before hand-over; (R9) constant and constant-bounded loop indexes into fixed-capacity tables (slices only ever made with a constant length) stay below the capacity (field cursors: only where a path fact bounds the cursor, and not in functions whose exploration exceeds the step budget). (R10) every make() whose size derives from an integer decoded from the wire (strconv parse, multi-byte word, a field holding one; parameters not followed) is bounded by the width of the decoded word (<= 32 bits) or by a test on its path - the out-of-range panic of make, not memory exhaustion. (R11) an index into a fixed-capacity table that is decoded from a client's message (protobuf request field, wire command field) is bounded by the width of its type or by a test on its path. (R12) in the value operations every slice of the stored frame whose bound contains a length supplied by the request stays within the frame by the path's comparisons (linear entailment). (R13) the walkers of a value frame (property header, array and key-value elements; accessors in protocol/ and the engine's POP / PUSH loops) read the frame at a loop-carried cursor only under a dominating comparison of the cursor with the frame's length, and slice up to cursor + decoded length only under one that includes the decoded length. NOT decided: integer overflow, memory exhaustion by large but representable allocations, channel/close misuse, type assertions, deadlock, stack exhaustion."
 	r.Assumptions = []string{"Go type checker and go/ssa are correct for /repo", "a handler dispatched through a command registry receives the parsed command with its name at args[0] (len(args) >= 1)", "a panic in any goroutine started for a connection kills the process (no recover in Server.handle: asserted)"}
 	c13NoRecover(p, r)
 	c13R1(p, r)
@@ -30,6 +30,7 @@ func checkC13(p *core.Prog, r *core.Report) {
 	c13R9(p, r)
 	c13R10(p, r)
 	c13R12(p, r)
+	c13R13(p, r)
 }
 
 // c13NoRecover asserts the premise that makes every panic fatal.
@@ -1813,4 +1814,211 @@ func c13R12(p *core.Prog, r *core.Report) {
 	if n == 0 {
 		r.Fail("C13/R12: no slice of the stored frame bounded by a request length found")
 	}
+}
+
+// ---------------------------------------------------------------------------
+// R13: the accessors of a value frame (LockCommandData / LockResultCommandData)
+// walk its contents with a cursor that the frame's own length fields advance
+// (property header, array and key-value elements). The frame comes from a
+// client and is stored as it is; another client's listing command walks it
+// later. Every read at a cursor position therefore needs a comparison of the
+// cursor with the frame's length that dominates it.
+func c13R13(p *core.Prog, r *core.Report) {
+	const rule = "C13/R13"
+	r.Rule(rule, "value-frame walkers: every read of a frame at a loop-carried cursor is dominated by a comparison of that cursor with the frame's length, and a slice whose end adds a length decoded from the frame is dominated by a comparison that includes that length", 8)
+	n := 0
+	frameField := func(k core.FieldKey) bool {
+		switch k.Type + "." + k.Field {
+		case "protocol.LockCommandData.Data", "protocol.LockResultCommandData.Data", "server.LockManagerData.data":
+			return true
+		}
+		return false
+	}
+	for _, pkg := range []string{"protocol", "server"} {
+		for _, fn := range p.FuncsIn(pkg) {
+			if fn.Blocks == nil {
+				continue
+			}
+			// the frame value: a load of one of the frame fields; two loads of the same field
+			// of the same base are the same frame
+			frameOf := func(v ssa.Value) (string, bool) {
+				u, ok := v.(*ssa.UnOp)
+				if !ok {
+					return "", false
+				}
+				fa, ok := u.X.(*ssa.FieldAddr)
+				if !ok || !frameField(core.FieldKeyOf(fa.X.Type(), fa.Field)) {
+					return "", false
+				}
+				return accessPath(fa.X) + "." + core.FieldKeyOf(fa.X.Type(), fa.Field).Field, true
+			}
+			var leaves func(v ssa.Value, phis map[*ssa.Phi]bool, decoded map[ssa.Value]bool, d int)
+			leaves = func(v ssa.Value, phis map[*ssa.Phi]bool, decoded map[ssa.Value]bool, d int) {
+				if d > 8 {
+					return
+				}
+				switch t := v.(type) {
+				case *ssa.Phi:
+					// loop-carried only: the phi sits in a loop header
+					for _, pred := range t.Block().Preds {
+						if t.Block().Dominates(pred) {
+							phis[t] = true
+						}
+					}
+				case *ssa.BinOp:
+					if t.Op == token.OR || t.Op == token.SHL {
+						// a word assembled from frame bytes: one decoded length
+						decoded[v] = true
+						return
+					}
+					leaves(t.X, phis, decoded, d+1)
+					leaves(t.Y, phis, decoded, d+1)
+				case *ssa.Convert:
+					if _, isBin := t.X.(*ssa.BinOp); isBin {
+						if b := t.X.(*ssa.BinOp); b.Op == token.OR || b.Op == token.SHL {
+							decoded[v] = true
+							return
+						}
+					}
+					leaves(t.X, phis, decoded, d+1)
+				}
+			}
+			lenOf := func(v ssa.Value) (string, bool) {
+				if c, ok := v.(*ssa.Convert); ok {
+					v = c.X
+				}
+				c, ok := v.(*ssa.Call)
+				if !ok {
+					return "", false
+				}
+				b, ok := c.Common().Value.(*ssa.Builtin)
+				if !ok || b.Name() != "len" || len(c.Common().Args) != 1 {
+					return "", false
+				}
+				return frameOf(c.Common().Args[0])
+			}
+			type guard struct {
+				frame   string
+				phis    map[*ssa.Phi]bool
+				decoded map[ssa.Value]bool
+				blk     *ssa.BasicBlock
+			}
+			var guards []guard
+			for _, b := range fn.Blocks {
+				if len(b.Instrs) == 0 {
+					continue
+				}
+				ifi, ok := b.Instrs[len(b.Instrs)-1].(*ssa.If)
+				if !ok {
+					continue
+				}
+				cmp, ok := ifi.Cond.(*ssa.BinOp)
+				if !ok {
+					continue
+				}
+				var other ssa.Value
+				frame := ""
+				if f, ok := lenOf(cmp.Y); ok {
+					other, frame = cmp.X, f
+				} else if f, ok := lenOf(cmp.X); ok {
+					other, frame = cmp.Y, f
+				} else {
+					continue
+				}
+				ph, dec := map[*ssa.Phi]bool{}, map[ssa.Value]bool{}
+				leaves(other, ph, dec, 0)
+				if len(ph) > 0 {
+					guards = append(guards, guard{frame, ph, dec, b})
+				}
+			}
+			ord := 0
+			for _, b := range fn.Blocks {
+				for _, ins := range b.Instrs {
+					var idx ssa.Value
+					frame := ""
+					isSliceEnd := false
+					switch t := ins.(type) {
+					case *ssa.IndexAddr:
+						if f, ok := frameOf(t.X); ok {
+							idx, frame = t.Index, f
+						}
+					case *ssa.Slice:
+						if f, ok := frameOf(t.X); ok {
+							frame = f
+							if t.High != nil {
+								idx, isSliceEnd = t.High, true
+							} else {
+								idx = t.Low
+							}
+						}
+					}
+					if idx == nil {
+						continue
+					}
+					ph, dec := map[*ssa.Phi]bool{}, map[ssa.Value]bool{}
+					leaves(idx, ph, dec, 0)
+					if len(ph) == 0 {
+						continue
+					}
+					ord++
+					n++
+					key := fmt.Sprintf("%s: frame read at a cursor #%d", core.FuncName(fn), ord)
+					cursorOK, lengthOK := false, !isSliceEnd || len(dec) == 0
+					for _, g := range guards {
+						if g.frame != frame || !g.blk.Dominates(b) || g.blk == b {
+							continue
+						}
+						shared := false
+						for q := range ph {
+							if g.phis[q] {
+								shared = true
+							}
+						}
+						if !shared {
+							continue
+						}
+						cursorOK = true
+						if isSliceEnd && len(dec) > 0 {
+							all := true
+							for dv := range dec {
+								if !g.decoded[dv] {
+									all = false
+								}
+							}
+							if all {
+								lengthOK = true
+							}
+						}
+					}
+					switch {
+					case cursorOK && lengthOK:
+						r.Hold(rule, key, p.InstrPos(ins), "dominated by a comparison with the frame's length")
+					case !cursorOK:
+						r.Violate(rule, key, p.InstrPos(ins), "the frame is read at a cursor that the frame's own length fields advance, and no comparison of that cursor with the frame's length dominates the read: a client stores a value whose header announces more than the frame carries, and the next command of any client that walks the value reads past the frame's end (index out of range in that connection's goroutine - the process ends)", nil)
+					default:
+						r.Violate(rule, key, p.InstrPos(ins), "the frame is sliced up to cursor + a length decoded from the frame itself, and no dominating comparison with the frame's length includes that decoded length: an element that announces more bytes than the frame carries makes the slice run past the frame's end (slice bounds out of range in the connection's goroutine - the process ends)", nil)
+					}
+				}
+			}
+		}
+	}
+	if n == 0 {
+		r.Fail("C13/R13: no cursor walk over a value frame found")
+	}
+}
+
+// accessPath names a value by the chain of parameters and fields it is loaded
+// through (two loads of the same field of the same object get the same name).
+func accessPath(v ssa.Value) string {
+	switch t := v.(type) {
+	case *ssa.Parameter:
+		return t.Name()
+	case *ssa.UnOp:
+		if t.Op == token.MUL {
+			return accessPath(t.X)
+		}
+	case *ssa.FieldAddr:
+		return accessPath(t.X) + "." + core.FieldKeyOf(t.X.Type(), t.Field).Field
+	}
+	return v.Name()
 }
